@@ -410,8 +410,24 @@ func c17Unfolder(c *run.C) {
 		t reflect.Type
 		s val.Stream
 	}
+	// a third of the histories run with a key cache (the unfolder's only
+	// configuration) small enough to evict; half of those unfold into
+	// map-typed targets only, where the cache is consulted
+	cacheCap := -1
+	mapsOnly := false
+	if r.P(1, 3) {
+		cacheCap = gen.Pick(r, []int{0, 1, 2, 3, 8})
+		mapsOnly = r.Bool()
+		vo.MaxLen = 5
+	}
+	mapTypes := []reflect.Type{reflect.TypeOf(map[string]int{}), reflect.TypeOf(map[string]interface{}{}), reflect.TypeOf([]map[string]string{}), gen.TIface,
+		reflect.TypeOf(map[string]map[string]bool{}), reflect.TypeOf(map[string]zoo.Plain{}), reflect.TypeOf(struct{ M map[string]uint8 }{})}
 	mk := func() (doc, bool) {
 		t, v := genTypeValue(r, to, vo)
+		if mapsOnly {
+			t = gen.Pick(r, mapTypes)
+			v = (&gen.ValueGen{R: r, O: vo}).Value(t, 0)
+		}
 		mv, err := model.Fold(v, nil)
 		if err != nil {
 			return doc{}, false
@@ -439,17 +455,24 @@ func c17Unfolder(c *run.C) {
 	for _, h := range hist {
 		desc = append(desc, h.t.String())
 	}
-	c.Begin(map[string]interface{}{"history_types": desc, "probe_type": probe.t.String(), "probe": probe.s})
+	c.Begin(map[string]interface{}{"history_types": desc, "probe_type": probe.t.String(), "probe": probe.s, "key_cache": cacheCap})
 	ft := reflect.New(probe.t)
 	fu, err := gotype.NewUnfolder(ft.Interface())
 	if err != nil {
 		return
+	}
+	if cacheCap >= 0 {
+		fu.EnableKeyCache(cacheCap)
 	}
 	var ferr error
 	if !c.Guard("fresh-unfolder", func() { ferr = mon.Replay(probe.s, fu, mon.ReplayOpts{ScribbleRefs: true}) }) {
 		return
 	}
 	u, _ := gotype.NewUnfolder(nil)
+	if cacheCap >= 0 {
+		u.EnableKeyCache(cacheCap)
+		c.Observe("unfolder_histories_with_key_cache", 1)
+	}
 	var idle []int
 	if hook.Enabled {
 		idle = hook.Depths(u)
@@ -515,7 +538,7 @@ func init() {
 			{Name: "parsers", N: tierN(60000, 2000000), Case: c17Parsers, Require: []string{"parser_histories_json", "parser_histories_ubjson", "parser_histories_cborl"}},
 			{Name: "decoders", N: tierN(60000, 2000000), Case: c17Decoders, Require: []string{"decoder_histories_json", "decoder_histories_ubjson", "decoder_histories_cborl"}},
 			{Name: "iterator", N: tierN(40000, 1200000), Case: c17Iterator, Require: []string{"iterator_histories", "iterator_probe_type_seen_before", "iterator_probe_type_new"}},
-			{Name: "unfolder", N: tierN(40000, 1200000), Case: c17Unfolder, Require: []string{"unfolder_histories"}},
+			{Name: "unfolder", N: tierN(40000, 1200000), Case: c17Unfolder, Require: []string{"unfolder_histories", "unfolder_histories_with_key_cache"}},
 		},
 	})
 }
